@@ -62,6 +62,16 @@ structure St where
   prevMax : Int := 0            -- pub case derived from an agg case: highest rate already offered
   fromAgg : Bool := false
   nAgg : Nat := 0
+  utxos : List Utxo := []
+  needBefore : Option Bool := none
+  tDeadline : Int := 0
+  nTop : Nat := 0
+  nTopNeeded : Nat := 0
+  nTopAdded : Nat := 0
+  nTopShort : Nat := 0
+  nTopErr : Nat := 0
+  nRaw : Nat := 0
+  nWrapProbes : Nat := 0
   nSets : Nat := 0
   nRegroupStart : Nat := 0
   nFiltered : Nat := 0
@@ -73,6 +83,8 @@ structure St where
   fired : List String := []     -- monitor clauses already reported in this case
   -- pub case
   req : Req := ⟨[], 0, 0, 0, none, 1, 1, 0, none⟩
+  /-- script size of the required output of each input (aligned with `req.inputs`; p2wsh if not printed). -/
+  inReqSize : List Nat := []
   script : String := ""
   relay : Int := 0
   est : Option Int := none
@@ -228,7 +240,8 @@ def ffOp (s : St) (ws : List String) (op : Op) : IO St := do
   let mut s := { s with ff := some g }
   if mInc != inc || mErr != err || g.cur != rate || g.pos != pos then
     s ← mismatch s s!"ff op: model=inc={mInc},err={mErr},rate={g.cur},pos={g.pos} impl=inc={inc},err={err},rate={rate},pos={pos}"
-  -- (S)
+  -- (S) (states set directly by an `ffraw` case are not reachable through the constructor: only X)
+  if s.kind == "ffraw" then return { s with lastRate := rate }
   s ← observe s pos rate true (g.cur == rate && g.pos == pos)
   match op with
   | .ict ct =>
@@ -279,10 +292,14 @@ def monitorTx (s : St) (t : TxLine) : IO St := do
   let dust := dustOf s.script
   if changes.length > 1 then
     s ← monitor s "dust-output" s!"{changes.length} change outputs"
+  let mut ko := 0
   for (kd, v) in t.outs do
-    let lim := if kd == "c" then dust else if kd == "r" then dustOf "p2wsh" else dustOf "p2tr"
+    -- a required output is index-aligned with the input committing to it
+    let rsz := ((t.ins[ko]?).bind (fun i => s.inReqSize[i.toNat]?)).getD 34
+    let lim := if kd == "c" then dust else if kd == "r" then dustLimitForSize rsz else dustOf "p2tr"
     if v < lim then
       s ← monitor s "dust-output" s!"output {kd}{v} below dust limit {lim}"
+    ko := ko + 1
   if t.outs.isEmpty then
     s ← monitor s "dust-output" "transaction without outputs"
   -- rate clauses from the transaction itself: fee = rate*weight/1000 (+ a below-dust change)
@@ -440,6 +457,69 @@ def aggEnd (s : St) : IO St := do
     s := { s with nSets := s.nSets + 1, nontriv := s.nontriv + 1 }
   return s
 
+/-- result of the wallet top-up of a set (`NeedWalletInput` / `AddWalletInputs`). -/
+def topupRes (s : St) (ws : List String) : IO St := do
+  let mut s := { s with ops := s.ops + 1 }
+  let r := after ws
+  let err := (kv? r "err").getD "?"
+  let needAfter := (kv? r "need") == some "true"
+  let bud := (kvInt? r "budget").getD 0
+  let st := optInt (kv? r "start")
+  let dl := (kvInt? r "deadline").getD 0
+  let members := parseList ((kv? r "members").getD "-")
+  -- (X)
+  let set0 : InSet := ⟨s.tDeadline, s.pins⟩
+  let memS (l : List PInp) : List String :=
+    l.map fun i => if i.idx < s.pins.length then toString i.idx else s!"w{i.value}"
+  match topUp 0 s.utxos set0 with
+  | .ok m =>
+    let need' := needWalletInput 0 m.inputs
+    if err != "none" || memS m.inputs != members || need' != needAfter || setBudget m.inputs != bud
+        || setStart m.inputs != st || m.deadline != dl then
+      s ← mismatch s s!"topup: model=ok members={memS m.inputs} need={need'} budget={setBudget m.inputs} start={setStart m.inputs} impl=err={err} members={members} need={needAfter} budget={bud} start={st}"
+  | .error e =>
+    if err != e.name then s ← mismatch s s!"topup: model=err={e.name} impl=err={err} members={members}"
+  -- (S) from the pin / utxo lines and the implementation's answer only
+  let plainVal := (s.pins.filter (·.req.isNone)).foldl (fun a i => a + i.value) 0
+  let sumBud := s.pins.foldl (fun a i => a + i.budget) 0
+  let wvals := members.filterMap fun m =>
+    if m.startsWith "w" then (String.ofList (m.toList.drop 1 |>.filter (· != '!'))).toInt? else none
+  let hasPlain := s.pins.any (·.req.isNone) || !wvals.isEmpty
+  if err == "none" then
+    for i in s.pins do
+      let cnt := (members.filter (· == toString i.idx)).length
+      if cnt != 1 then
+        s ← monitor s "missing-input" s!"input {i.idx} of the set is in the topped-up set {cnt} times"
+    if members.any (·.endsWith "!") then
+      s ← monitor s "budget-sum" s!"a wallet input carries a budget / required output / other deadline: {members}"
+    if bud != sumBud then
+      s ← monitor s "budget-sum" s!"Budget() after the top-up = {bud}, sum of the inputs' budgets = {sumBud}"
+    if dl != s.tDeadline then
+      s ← monitor s "deadline-mismatch" s!"deadline {dl} after the top-up, was {s.tDeadline}"
+    let prev := s.pins.foldl (fun a i => max a (i.start.getD 0)) 0
+    if st.getD 0 < prev then
+      s ← monitor s "regroup-rate-decreased" s!"topped-up set: StartingFeeRate()={st.getD 0} but a member was already offered at {prev}"
+    let spendable := plainVal + wvals.foldl (· + ·) 0
+    -- "enough" means: what can pay fees covers the whole budget
+    if !needAfter && spendable < bud then
+      s ← monitor s "topup-short" s!"NeedWalletInput()=false but spendable {spendable} < budget {bud}"
+    if needAfter && s.needBefore == some true && wvals.length != s.utxos.length then
+      s ← monitor s "topup-short" s!"still needs wallet inputs but only {wvals.length} of {s.utxos.length} UTXOs were added"
+    if !hasPlain then
+      s ← monitor s "topup-short" "sweep goes ahead without any input that can pay fees"
+    -- smallest UTXOs first
+    let sortedU := (s.utxos.map (·.value)).toArray.qsort (· < ·) |>.toList
+    if wvals != sortedU.take wvals.length then
+      s ← monitor s "topup-short" s!"wallet inputs {wvals} are not the smallest UTXOs {sortedU}"
+    if !wvals.isEmpty then s := { s with nTopAdded := s.nTopAdded + 1 }
+    if needAfter then s := { s with nTopShort := s.nTopShort + 1 }
+  else
+    s := { s with nTopErr := s.nTopErr + 1 }
+    if err == "inputs" && s.pins.any (·.req.isNone) then
+      s ← monitor s "topup-short" "ErrNotEnoughInputs although an input can pay fees"
+  if s.needBefore == some true then s := { s with nTopNeeded := s.nTopNeeded + 1 }
+  return { s with nontriv := s.nontriv + 1 }
+
 def step (s : St) (line : String) : IO St := do
   let s := { s with lines := s.lines + 1 }
   let ws := words line
@@ -452,7 +532,10 @@ def step (s : St) (line : String) : IO St := do
     s ← chk s "maxBlockTarget" maxBlockTarget
     s ← chk s "dust_p2wkh" (dustOf "p2wkh")
     s ← chk s "dust_p2wsh" (dustOf "p2wsh")
-    chk s "dust_p2tr" (dustOf "p2tr")
+    s ← chk s "dust_p2tr" (dustOf "p2tr")
+    for sz in [22, 34, 23, 25, 42, 0, 33, 35, 100] do
+      s ← chk s s!"dust_{sz}" (dustLimitForSize sz)
+    return s
   | "CASE" :: id :: rest =>
     let kind := (kv? rest "kind").getD ""
     let mut s := { s with caseId := id, kind := kind, cases := s.cases + 1, ff := none, callerStart := false, startVal := none, ceilVal := 0, inDomain := true,
@@ -474,8 +557,13 @@ def step (s : St) (line : String) : IO St := do
     if kind == "agg" then
       s := { s with aRelay := (kvInt? rest "relay").getD 0, aMaxInputs := (kvNat? rest "maxinputs").getD 100,
                     pins := [], implSets := [], nAgg := s.nAgg + 1 }
+    if kind == "topup" then
+      s := { s with pins := [], utxos := [], needBefore := none, tDeadline := (kvInt? rest "deadline").getD 0,
+                    nTop := s.nTop + 1 }
+    if kind == "ffraw" then s := { s with nRaw := s.nRaw + 1, inDomain := false }
     if kind == "pub" then
-      s := { s with prevMax := (kvInt? rest "prevmax").getD 0, fromAgg := (kv? rest "from_agg").isSome }
+      s := { s with prevMax := (kvInt? rest "prevmax").getD 0,
+                    fromAgg := (kv? rest "from_agg").isSome || (kv? rest "from_topup").isSome }
       let script := (kv? rest "script").getD ""
       s := { s with
         req := { inputs := [], budget := (kvInt? rest "budget").getD 0,
@@ -484,6 +572,7 @@ def step (s : St) (line : String) : IO St := do
                  start := optInt (kv? rest "start"),
                  wBudget := (kvNat? rest "wb").getD 1, wTx := (kvNat? rest "wtx").getD 1,
                  dust := (kvInt? rest "dust").getD 0, extra := optInt (kv? rest "aux") },
+        inReqSize := [],
         script := script, relay := (kvInt? rest "relay").getD 0, est := optInt (kv? rest "est"),
         callerStart := (optInt (kv? rest "start")).isSome, nPub := s.nPub + 1 }
       if (kvInt? rest "dust").getD 0 != dustOf script then
@@ -495,8 +584,29 @@ def step (s : St) (line : String) : IO St := do
                       deadline := (kvInt? rest "deadline").getD 0, start := optInt (kv? rest "start"),
                       immediate := (kv? rest "immediate") == some "true",
                       lt := (optInt (kv? rest "lt")).map Int.toNat, wu := (kvNat? rest "wu").getD 0,
-                      reqDust := (kv? rest "reqdust") == some "1" }
-    return { s with pins := s.pins ++ [i] }
+                      value := (kvInt? rest "value").getD 0, req := optInt (kv? rest "req"),
+                      reqSize := (kvNat? rest "reqsize").getD 0 }
+    let mut s := { s with pins := s.pins ++ [i] }
+    -- (X) isDustOutput of the required output
+    let implDust := (kv? rest "reqdust") == some "1"
+    if i.reqDust != implDust then
+      s ← mismatch s s!"isDustOutput(required output {i.req}, script size {i.reqSize}): model={i.reqDust} impl={implDust}"
+    return s
+  | "utxo" :: rest =>
+    return { s with utxos := s.utxos ++ [⟨(kvInt? rest "value").getD 0, 0⟩] }
+  | "need" :: _ =>
+    let s := { s with ops := s.ops + 1 }
+    let impl := (after ws).head? == some "true"
+    let s := { s with needBefore := some impl }
+    if needWalletInput 0 s.pins != impl then
+      mismatch s s!"NeedWalletInput: model={needWalletInput 0 s.pins} impl={impl}"
+    else return s
+  | "topup" :: _ => topupRes s ws
+  | "raw" :: rest =>
+    let get (k : String) : Int := (kvInt? rest k).getD 0
+    let f : FeeFn := ⟨get "start", get "end", get "cur", (kvNat? rest "width").getD 0,
+                      (kvNat? rest "pos").getD 0, get "delta"⟩
+    return { s with ff := some f, fEnd := f.end_, fStart := f.start, fWidth := f.width, lastRate := f.cur }
   | "set" :: rest =>
     let ids := (parseList ((kv? rest "inputs").getD "-")).map (fun x => x.toNat?.getD 0)
     return { s with ops := s.ops + 1,
@@ -531,6 +641,7 @@ def step (s : St) (line : String) : IO St := do
     let s := { s with ops := s.ops + 1 }
     let (some r, some w) := (r.toInt?, w.toNat?) | mismatch s "bad ffw"
     let impl := ((after ws).head?.bind String.toInt?).getD 0
+    let s := if impl != Int.tdiv (r * w) 1000 then { s with nWrapProbes := s.nWrapProbes + 1 } else s
     if feeForWeight r w != impl then mismatch s s!"ffw {r} {w}: model={feeForWeight r w} impl={impl}"
     else return s
   | "cct" :: h :: d :: _ =>
@@ -540,8 +651,13 @@ def step (s : St) (line : String) : IO St := do
     let mut s := s
     if calcCurrentConfTarget h d != impl then
       s ← mismatch s s!"cct {h} {d}: model={calcCurrentConfTarget h d} impl={impl}"
-    if (impl : Int) != (if d - h < 0 then 0 else d - h) then
-      s ← monitor s "below-ceiling-at-deadline" s!"conf target of height {h}, deadline {d} is {impl}"
+    -- judged for non-negative heights (block heights are never negative; outside, the int32
+    -- subtraction may wrap: compared with the model above, counted here)
+    if h ≥ 0 && d ≥ 0 then
+      if (impl : Int) != (if d - h < 0 then 0 else d - h) then
+        s ← monitor s "below-ceiling-at-deadline" s!"conf target of height {h}, deadline {d} is {impl}"
+    else if (impl : Int) != (if d - h < 0 then 0 else d - h) then
+      s := { s with nWrapProbes := s.nWrapProbes + 1 }
     return s
   | "new" :: _ =>
     let s := { s with ops := s.ops + 1 }
@@ -591,11 +707,13 @@ def step (s : St) (line : String) : IO St := do
     let some f := s.ff | mismatch s "at without fee function"
     let mut s := s
     if f.rateAt M p != impl then s ← mismatch s s!"at {p}: model={f.rateAt M p} impl={impl}"
+    if s.kind == "ffraw" then return s
     observe s p impl false (f.rateAt M p == impl)
   | "in" :: rest =>
     let i : Inp := ⟨(kvInt? rest "value").getD 0, optInt (kv? rest "req"),
                    (optInt (kv? rest "lt")).map Int.toNat⟩
-    return { s with req := { s.req with inputs := s.req.inputs ++ [i] } }
+    return { s with req := { s.req with inputs := s.req.inputs ++ [i] },
+                    inReqSize := s.inReqSize ++ [(kvNat? rest "reqsize").getD 34] }
   | "mfra" :: _ =>
     let s := { s with ops := s.ops + 1 }
     let impl := ((after ws).head?.bind String.toInt?).getD (-1)
@@ -670,6 +788,13 @@ def main : IO Unit := do
   IO.println s!"STAT no_tx_at_ceiling_rounding={s.nNoTxRounding}"
   IO.println s!"STAT no_tx_at_ceiling_aux_weight={s.nNoTxAux}"
   IO.println s!"STAT no_tx_at_ceiling_dust_fold={s.nNoTxDust}"
+  IO.println s!"STAT ffraw_cases={s.nRaw}"
+  IO.println s!"STAT fixed_width_probes_that_wrap={s.nWrapProbes}"
+  IO.println s!"STAT topup_cases={s.nTop}"
+  IO.println s!"STAT topup_needed_wallet_input={s.nTopNeeded}"
+  IO.println s!"STAT topup_wallet_inputs_added={s.nTopAdded}"
+  IO.println s!"STAT topup_still_short={s.nTopShort}"
+  IO.println s!"STAT topup_errors={s.nTopErr}"
   IO.println s!"STAT agg_cases={s.nAgg}"
   IO.println s!"STAT agg_input_sets={s.nSets}"
   IO.println s!"STAT agg_sets_with_previously_offered_member={s.nRegroupStart}"
